@@ -155,7 +155,7 @@ Definition eof_code (d : bytes) : Z := match d with [] => ERR_EOF | _ => ERR_UEO
 Definition do_lit (args : list arg) (w : cworld) : Z * cworld :=
   match args with
   | [AStr s] => (vnext w, valloc w (VStr (bytes_of_string s)))
-  | _ => (0, w)
+  | _ => (0, logev w EPanic)   (* a call of this name with other arguments: not the code that was modelled *)
   end.
 
 Definition do_streq (args : list arg) (w : cworld) : Z * cworld :=
@@ -165,7 +165,7 @@ Definition do_streq (args : list arg) (w : cworld) : Z * cworld :=
     | VStr x, VStr y => (bool_to_z (bytes_eqb x y), w)
     | _, _ => (0, w)
     end
-  | _ => (0, w)
+  | _ => (0, logev w EPanic)   (* a call of this name with other arguments: not the code that was modelled *)
   end.
 
 Definition do_make (args : list arg) (w : cworld) : Z * cworld :=
@@ -173,7 +173,7 @@ Definition do_make (args : list arg) (w : cworld) : Z * cworld :=
   | [AInt n] =>
     if n <? 0 then (0, logev w EPanic)
     else (onext w, set_buf (oalloc w OBuf) (repeat 0 (Z.to_nat n)) (onext w))
-  | _ => (0, w)
+  | _ => (0, logev w EPanic)   (* a call of this name with other arguments: not the code that was modelled *)
   end.
 
 Definition do_slice (args : list arg) (w : cworld) : Z * cworld :=
@@ -183,7 +183,7 @@ Definition do_slice (args : list arg) (w : cworld) : Z * cworld :=
     if (b =? cw_rawtok w) && negb (b =? 0) && (0 <=? lo) && (lo <=? hi') && (hi' <=? blen (cw_raw w))
     then (vnext w, valloc w (VView b lo hi'))
     else (0, logev w EPanic)
-  | _ => (0, w)
+  | _ => (0, logev w EPanic)   (* a call of this name with other arguments: not the code that was modelled *)
   end.
 
 Definition do_string (args : list arg) (w : cworld) : Z * cworld :=
@@ -195,7 +195,7 @@ Definition do_string (args : list arg) (w : cworld) : Z * cworld :=
       else (vnext w, valloc w VNone)
     | _ => (vnext w, valloc w VNone)
     end
-  | _ => (0, w)
+  | _ => (0, logev w EPanic)   (* a call of this name with other arguments: not the code that was modelled *)
   end.
 
 (* io.ReadFull(reader, view) *)
@@ -242,12 +242,12 @@ Definition hdr_of (w : cworld) (tok : Z) : option hdr :=
 Definition do_hdr_int (f : hdr -> Z) (args : list arg) (w : cworld) : Z * cworld :=
   match args with
   | [AInt t] => match hdr_of w t with Some h => (f h, w) | None => (0, w) end
-  | _ => (0, w)
+  | _ => (0, logev w EPanic)   (* a call of this name with other arguments: not the code that was modelled *)
   end.
 Definition do_hdr_str (f : hdr -> bytes) (args : list arg) (w : cworld) : Z * cworld :=
   match args with
   | [AInt t] => match hdr_of w t with Some h => (vnext w, valloc w (VStr (f h))) | None => (vnext w, valloc w VNone) end
-  | _ => (0, w)
+  | _ => (0, logev w EPanic)   (* a call of this name with other arguments: not the code that was modelled *)
   end.
 
 Definition do_new_recorder (args : list arg) (w : cworld) : Z * cworld :=
@@ -256,14 +256,14 @@ Definition do_new_recorder (args : list arg) (w : cworld) : Z * cworld :=
 Definition do_new_throttle (args : list arg) (w : cworld) : Z * cworld :=
   match args with
   | [AInt r; _; AInt m; _; _] => (onext w, logev (oalloc w OThrottle) (ENewThrottle r m (onext w)))
-  | _ => (0, w)
+  | _ => (0, logev w EPanic)   (* a call of this name with other arguments: not the code that was modelled *)
   end.
 
 Definition do_new_processor (args : list arg) (w : cworld) : Z * cworld :=
   match args with
   | [AInt parser; _; _; _; _; AInt rec; _; AInt const; AInt snap] =>
     (onext w, logev (oalloc w OProcessor) (ENewProcessor parser rec const snap (onext w)))
-  | _ => (0, w)
+  | _ => (0, logev w EPanic)   (* a call of this name with other arguments: not the code that was modelled *)
   end.
 
 Definition do_reset (args : list arg) (w : cworld) : Z * cworld :=
@@ -273,7 +273,7 @@ Definition do_reset (args : list arg) (w : cworld) : Z * cworld :=
     | OProcessor, Some _ => (0, logev w (EReset p))
     | _, _ => (0, logev w EPanic)
     end
-  | _ => (0, w)
+  | _ => (0, logev w EPanic)   (* a call of this name with other arguments: not the code that was modelled *)
   end.
 
 Definition presult_code (r : presult) : Z :=
@@ -289,7 +289,7 @@ Definition do_process (args : list arg) (w : cworld) : Z * cworld :=
       else (0, logev w EPanic)
     | _ => (0, logev w EPanic)
     end
-  | _ => (0, w)
+  | _ => (0, logev w EPanic)   (* a call of this name with other arguments: not the code that was modelled *)
   end.
 
 Definition do_map (args : list arg) (w : cworld) : Z * cworld :=
@@ -340,10 +340,18 @@ Definition do_addevent (args : list arg) (w : cworld) : Z * cworld :=
 Definition do_errtext (args : list arg) (w : cworld) : Z * cworld :=
   match args with
   | [AInt e] => (vnext w, valloc w (VErrText e))
-  | _ => (0, w)
+  | _ => (0, logev w EPanic)   (* a call of this name with other arguments: not the code that was modelled *)
   end.
 
 Definition arg_z (args : list arg) : Z := match args with [AInt z] => z | _ => 0 end.
+
+(* calls whose effect no property of the connection loop depends on (logging, configuration tokens nobody
+   inspects, the clock): they return 0 and leave the world alone.  EVERY other name without a clause in
+   [cext] is logged as EPanic, so that code calling something new is not silently taken for harmless. *)
+Definition inert_names : list string :=
+  ["log.Print"; "log.Printf"; "log.Println"; "logConfig"; "conf.LoadMotionConfig"; "time.Now";
+   "obj.ResX"; "obj.ResY"; "obj.CameraSerial";
+   "read:conf.Motion"; "read:conf.Recorder"; "read:conf.Location"; "read:conf.Throttler"]%string.
 
 Definition cext (cfg : ccfg) (name : string) (args : list arg) (w : cworld) : Z * cworld :=
   if String.eqb name "str.lit" then do_lit args w
@@ -366,7 +374,7 @@ Definition cext (cfg : ccfg) (name : string) (args : list arg) (w : cworld) : Z 
   else if String.eqb name "eventclient.AddEvent" then do_addevent args w
   else if String.eqb name "leptondController.RestartCamera" then (0, logev w ERestart)
   else if String.eqb name "leptondController.SetAutoFFC" then
-    match args with [ABool b] => (0, logev w (EAutoFFC b)) | _ => (0, w) end
+    match args with [ABool b] => (0, logev w (EAutoFFC b)) | _ => (0, logev w EPanic) end
   else if String.eqb name "bufio.NewReader" then (onext w, oalloc w OReader)
   else if String.eqb name "headers.ReadHeaderInfo" then do_readheader cfg args w
   else if String.eqb name "headers.ReadHeaderInfo#1" then (cw_pending w, w)
@@ -393,7 +401,8 @@ Definition cext (cfg : ccfg) (name : string) (args : list arg) (w : cworld) : Z 
   else if String.eqb name "read:conf.Recorder.PreviewSecs" then (c_preview cfg, w)
   else if String.eqb name "make:[]byte" then do_make args w
   else if String.eqb name "obj.Stop" then (0, logev w (EStop (arg_z args)))
-  else (0, w).
+  else if existsb (String.eqb name) inert_names then (0, w)
+  else (0, logev w EPanic).   (* a call nobody gave a meaning to: not the code that was modelled *)
   (* log.Print / Printf / Println, logConfig, conf.LoadMotionConfig, time.Now, obj.ResX / ResY /
      CameraSerial, read:conf.Motion / Recorder / Location / Throttler (tokens nobody inspects) *)
 
